@@ -193,7 +193,7 @@ GT = "scenarios.c10.GenericTheta"
 
 
 def T_gtheta():
-    return TObj(GT, fields={"A": TArr(Real, 2), "s": TReal, "B": TArr(Real)})
+    return TObj(GT, fields={"A": TArr(Real, 2), "s": TReal, "B": TArr(Real), "c": TReal})
 
 
 def T_full_holder(n):
@@ -223,7 +223,7 @@ def _hr_post(a, ret, st):
         return out
     for k, (t0, t1) in enumerate(zip(src, items)):
         out.append(("sample_%d_in_place_and_identical" % k, z3.And(same_arr(t1.fields["A"], t0.fields["A"]), t1.fields["s"] == t0.fields["s"],
-                                                                   same_arr(t1.fields["B"], src[0].fields["B"]))))
+                                                                   same_arr(t1.fields["B"], src[0].fields["B"]), t1.fields["c"] == src[0].fields["c"])))
     return out
 
 
